@@ -91,7 +91,7 @@ pub fn worker_main(args: &Args) -> i32 {
     let cur_start = Arc::new(AtomicU64::new(0));
     let cur_index = Arc::new(AtomicU64::new(0));
     let done = Arc::new(AtomicBool::new(false));
-    let t0 = Instant::now();
+    let _t0 = Instant::now();
     let (cs, ci, dn) = (cur_start.clone(), cur_index.clone(), done.clone());
     let handle = std::thread::Builder::new()
         .stack_size(RUN_STACK)
@@ -108,7 +108,7 @@ pub fn worker_main(args: &Args) -> i32 {
             }
             while i < runs {
                 ci.store(i, Ordering::Relaxed);
-                cs.store(t0.elapsed().as_millis() as u64 + 1, Ordering::Relaxed);
+                cs.store(process_cpu_ms() + 1, Ordering::Relaxed);
                 emit(&format!("B {}", i));
                 let case = engines::gen_case(&engine, &prop, tier, seed, i);
                 let outs = process_index(&case, mon, false);
@@ -151,7 +151,7 @@ pub fn worker_main(args: &Args) -> i32 {
         std::thread::sleep(Duration::from_millis(100));
         let s = cur_start.load(Ordering::Relaxed);
         if s != 0 {
-            let now = t0.elapsed().as_millis() as u64 + 1;
+            let now = process_cpu_ms() + 1;
             if now > s && now - s > wall_limit * 1000 {
                 emit(&format!("W {}", cur_index.load(Ordering::Relaxed)));
                 unsafe { libc::_exit(86) };
@@ -192,6 +192,14 @@ pub fn worker_main(args: &Args) -> i32 {
         json!({"totals": totals.to_json(), "classes": cl, "samples": samples})
     ));
     0
+}
+
+/// CPU time consumed by this process so far, in ms. The watchdogs measure CPU time, not
+/// wall-clock time: a run that is starved by other load on the machine is not a hang.
+pub fn process_cpu_ms() -> u64 {
+    let mut ts = libc::timespec { tv_sec: 0, tv_nsec: 0 };
+    unsafe { libc::clock_gettime(libc::CLOCK_PROCESS_CPUTIME_ID, &mut ts) };
+    ts.tv_sec as u64 * 1000 + ts.tv_nsec as u64 / 1_000_000
 }
 
 fn on_big_stack<T: Send + 'static>(f: impl FnOnce() -> T + Send + 'static) -> T {
